@@ -96,7 +96,6 @@ package regular
 //@   ensures [handler-label-and-filter] arg(ssh.NewSSHAgentKeyWithOpt, n0, 1).CertLabel == "paranoids.regular-cert" &&
 //@     contains(arg(ssh.NewSSHAgentKeyWithOpt, n0, 1).CertLabel, "paranoids.regular") &&
 //@     arg(ssh.NewSSHAgentKeyWithOpt, n0, 1).KeyRefreshFilter == keyFilter
-//@   ensures [private-key-label-is-not-selected-by-the-filter] arg(ssh.NewSSHAgentKeyWithOpt, n0, 1).PrivateKeyLabel == "private-key"
 //@   ensures err == nil ==> (result0 != nil && fresh(result0) && result0.AgentKey == ret(ssh.NewSSHAgentKeyWithOpt, n0, 0) && result0.AgentKey != nil && result0.csrs == nil)
 //@   ensures err == nil <==> ret(ssh.NewSSHAgentKeyWithOpt, n0, 1) == nil
 //@   ensures [nothing-removed] calls(Agent.Remove) == old(calls(Agent.Remove)) && calls(Agent.RemoveAll) == old(calls(Agent.RemoveAll))
